@@ -123,13 +123,21 @@ def has_nan(p):
     return False
 
 
-def observe(t, p, tail=b""):
-    """Run the implementation on (type, plain input). Returns a dict of observations."""
+def observe(t, p, tail=b"", before=None):
+    """Run the implementation on (type, plain input). Returns a dict of observations.
+
+    before: a value the variable is given first (set() on a variable that already holds something: what it holds afterwards, and what it
+    encodes to, is a matter of the value set last - as for a fresh variable)."""
     import coqlit as L
 
     out = {"set_ok": False, "val": "VNone", "get": None, "enc": None, "dec": None, "err": None}
     try:
         var = build(t)
+        if before is not None:
+            try:
+                var.set(to_py(before))
+            except Exception:  # noqa: BLE001 - the earlier value was refused: a fresh variable again
+                var = build(t)
         var.set(to_py(p))
     except Exception as exc:  # noqa: BLE001 - every exception is an observation
         out["err"] = f"set: {type(exc).__name__}: {exc}"[:200]
